@@ -73,6 +73,83 @@ Theorem C01_chain_exact_partial :
 Proof. exact chain_exact. Qed.
 Print Assumptions C01_chain_exact_partial.
 
+(* ... and for ALL values, dicts and sets included: the running result - started from
+   any well-formed value equal to t0 up to dict / set order - stays equal up to that
+   order to every ti, and no error is logged.  A type change whose values are omitted
+   is rebuilt by the constructor call on the CURRENT value, which is known up to that
+   order only; [chain_okv] ([okb_all] at every step) asks that the call rebuilds the new
+   value from every such current value as well.  It holds outright when the values are
+   stored (next theorem), when conv never applies, and at steps whose left end holds no
+   dict / set ([okb_all_ordfree]); without it the statement is false
+   (C01_chain_veq_refuted_rebuild). *)
+Theorem C01_chain_veq_partial :
+  forall hatom udiff ops c conv bidir always ro ao,
+    (forall a b, hatom a = hatom b -> a = b) ->
+    (forall ty0 v v', conv ty0 v = Some v' -> type_of v' = ty0) ->
+  forall rest cur t0, chain_ok hatom udiff ops c conv bidir always ro ao t0 rest ->
+    chain_okv conv bidir always t0 rest ->
+    wf cur = true -> veqb cur t0 = true ->
+    Forall2 (fun res t => snd res = 0 /\ veqb (fst res) t = true)
+      (chain_from hatom udiff ops c conv bidir always ro ao cur t0 rest) rest.
+Proof. exact chain_veq. Qed.
+Print Assumptions C01_chain_veq_partial.
+
+(* with bidirectional=True or always_include_values=True nothing more is asked *)
+Theorem C01_chain_veq_stored_values_partial :
+  forall hatom udiff ops c conv bidir always ro ao,
+    (forall a b, hatom a = hatom b -> a = b) ->
+    (forall ty0 v v', conv ty0 v = Some v' -> type_of v' = ty0) ->
+    bidir || always = true ->
+  forall rest cur t0, chain_ok hatom udiff ops c conv bidir always ro ao t0 rest ->
+    wf cur = true -> veqb cur t0 = true ->
+    Forall2 (fun res t => snd res = 0 /\ veqb (fst res) t = true)
+      (chain_from hatom udiff ops c conv bidir always ro ao cur t0 rest) rest.
+Proof.
+  intros hatom udiff ops c conv bidir always ro ao Hinj Hconv F rest cur t0 H W V.
+  apply (chain_veq hatom udiff ops c conv bidir always ro ao Hinj Hconv rest cur t0 H); try assumption.
+  apply chain_okv_flags. exact F.
+Qed.
+Print Assumptions C01_chain_veq_stored_values_partial.
+
+(* the single step from a reordered base: apply transports along [veqb] *)
+Theorem C01_roundtrip_veq_base_partial :
+  forall hatom udiff ops c conv bidir always,
+    (forall a b, hatom a = hatom b -> a = b) ->
+    (forall ty0 v v', conv ty0 v = Some v' -> type_of v' = ty0) ->
+  forall ro ao t1 t2 v,
+    guards c conv bidir always t1 t2 -> opsv ops t1 t2 [] ->
+    wf v = true -> veqb v t1 = true -> okb conv bidir always v t1 t2 ->
+    let r := run_diff hatom udiff ops nos nos c t1 t2 in
+    let d := to_delta conv bidir always ops t1 t2 (fst r) (snd r) in
+    orders_ok_at ro ao d ->
+    exists t2', apply conv ro ao d v = (t2', 0) /\ veqb t2' t2 = true.
+Proof. exact roundtrip_from. Qed.
+Print Assumptions C01_roundtrip_veq_base_partial.
+
+(* satisfiable: a two-step chain through nested dicts, a set and a frozenset, started from
+   a reordered copy of t0 (not equal to it, and t0 is not order-free) *)
+Example C01_chain_veq_guards_satisfiable :
+  chain_ok hatom_ex (fun _ _ => []) no_ops ex_cfg conv_none false false (@rev _) (fun l => l) cv0 [cv1; cv2] /\
+  chain_okv conv_none false false cv0 [cv1; cv2] /\
+  (wf cv_start = true /\ veqb cv_start cv0 = true /\ value_eqb cv_start cv0 = false /\ ordfree cv0 = false) /\
+  Forall2 (fun res t => snd res = 0 /\ veqb (fst res) t = true)
+    (chain_from hatom_ex (fun _ _ => []) no_ops ex_cfg conv_none false false (@rev _) (fun l => l) cv_start cv0 [cv1; cv2])
+    [cv1; cv2].
+Proof. exact (conj cv_chain_ok (conj cv_chain_okv (conj cv_start_ok cv_chain))). Qed.
+Print Assumptions C01_chain_veq_guards_satisfiable.
+
+(* without [chain_okv]: {'k': {'a':1,'b':2}} -> {'k': ['a','b']} inside the guards of the
+   round trip; list(old) == new, so the values are omitted; from the equal dict
+   {'k': {'b':2,'a':1}} the same delta builds {'k': ['b','a']}, without error *)
+Theorem C01_chain_veq_refuted_rebuild :
+  guards ex_cfg keys_conv false false rb_t1 rb_t2 /\
+  wf rb_v = true /\ veqb rb_v rb_t1 = true /\
+  apply keys_conv (@rev _) (fun l => l) (delta_of hatom_ex (fun _ _ => []) no_ops ex_cfg keys_conv false false rb_t1 rb_t2) rb_t1 = (rb_t2, 0) /\
+  apply keys_conv (@rev _) (fun l => l) (delta_of hatom_ex (fun _ _ => []) no_ops ex_cfg keys_conv false false rb_t1 rb_t2) rb_v = (rb_res, 0) /\
+  veqb rb_res rb_t2 = false.
+Proof. exact (conj rb_guards refuted_rebuild). Qed.
+Print Assumptions C01_chain_veq_refuted_rebuild.
+
 (* the guards are decidable-sufficient and satisfiable by a non-trivial pair:
    nested dict / lists / tuple / set with a recorded difflib alignment, a single
    insertion, a positional list with trailing removals, added and removed keys, set items,
